@@ -322,6 +322,20 @@ fn predicates<T: Fl>(rec: &mut Rec, rng: &mut Rng) {
             let x = base::<T>(rng, n);
             let c = <$C as Comp<T>>::make(&x);
             rec.expect("is_finite (all finite)", c.is_finite(), true, || <$C as Comp<T>>::NAME.to_string());
+            // finite values at the end of the range are finite too: all components large with one
+            // sign, with alternating signs, and the smallest positive values
+            let big = <T as num_traits::Float>::max_value();
+            let tiny = <T as num_traits::Float>::min_positive_value();
+            for (label, y) in [
+                ("all MAX", vec![big; n]),
+                ("all -MAX", vec![-big; n]),
+                ("+-MAX alternating", (0..n).map(|i| if i % 2 == 0 { big } else { -big }).collect::<Vec<T>>()),
+                ("0.6 MAX", vec![big * T::of(0.6); n]),
+                ("MIN_POSITIVE", vec![tiny; n]),
+            ] {
+                let c = <$C as Comp<T>>::make(&y);
+                rec.expect("is_finite (finite values at the end of the range)", c.is_finite(), true, || format!("{} with {label}", <$C as Comp<T>>::NAME));
+            }
             for i in 0..n {
                 for bad in [T::qnan(), T::inf(), -T::inf()] {
                     let mut y = x.clone();
